@@ -1,6 +1,3 @@
-//verif:overlay veriffs/fs.go
-//verif:pkgs io/fs
-//verif:assume the file system is a model (package veriffs): a path names an inode, hard links share it, an open file is a cursor that survives removal of its path, O_EXCL creation fails on an existing path, ReadAt past the end returns what there is and io.EOF; errors are the fs.Err* sentinels wrapped in *fs.PathError
 // Package veriffs is the file-system model the store harnesses (C05, C07) run
 // the real store/file code against. It states the contract of the os package
 // the code relies on and nothing more: a path names an inode (hard links share
@@ -9,6 +6,10 @@
 // existing path, ReadAt past the end returns the bytes there are and io.EOF.
 // Every mutation is one step; a crash can be injected before any step (C07):
 // the steps done so far stay, the process state (open handles) is lost.
+//
+//verif:overlay veriffs/fs.go
+//verif:pkgs io/fs
+//verif:assume the file system is a model (package veriffs): a path names an inode, hard links share it, an open file is a cursor that survives removal of its path, O_EXCL creation fails on an existing path, ReadAt past the end returns what there is and io.EOF; errors are the fs.Err* sentinels wrapped in *fs.PathError
 package veriffs
 
 import (
@@ -43,7 +44,10 @@ var (
 	Steps, CrashAt int
 	// FailWriteAt >= 0: the write with this ordinal fails (short write + error)
 	Writes, FailWriteAt int
-	Opened, Closed      int
+	// FailAt >= 0: the mutation with this number fails once with an I/O error
+	// and has no effect; the process lives on (a transient fault, not a crash)
+	FailAt         int
+	Opened, Closed int
 )
 
 func Reset() {
@@ -56,13 +60,14 @@ func Reset() {
 	Paths = map[string]*Inode{}
 	handles = map[*os.File]*handle{}
 	Steps, CrashAt, Writes, FailWriteAt, Opened, Closed = 0, -1, 0, -1, 0, 0
+	FailAt, Failed = -1, false
 	Crashed, Torn = false, false
 }
 
 // Reboot drops the process state after a crash: handles are gone, files stay.
 func Reboot() {
 	handles = map[*os.File]*handle{}
-	CrashAt, FailWriteAt = -1, -1
+	CrashAt, FailWriteAt, FailAt = -1, -1, -1
 	Opened, Closed = 0, 0
 	Crashed, Torn = false, false
 }
@@ -74,6 +79,7 @@ func Reboot() {
 // Torn: the crashing step, when it is a write, still persists half its bytes.
 var (
 	Crashed bool
+	Failed  bool // the transient fault of FailAt happened
 	Torn    bool
 	errDead = errors.New("veriffs: process crashed")
 )
@@ -84,6 +90,11 @@ func step() bool {
 	}
 	if CrashAt >= 0 && Steps == CrashAt {
 		Crashed = true
+		return false
+	}
+	if FailAt >= 0 && Steps == FailAt {
+		FailAt, Failed = -1, true
+		Steps++
 		return false
 	}
 	Steps++
